@@ -1,5 +1,6 @@
 import re
 import json
+import gzip
 import collections
 import collections.abc
 
@@ -525,13 +526,16 @@ class TransactionDecode:
     def _decode(self, lines:Iterator[str]) -> Iterable[Any]:
         #An interrupted experiment can leave a partially written last line.
         #Nothing in it was finished so we ignore it rather than fail to read.
-        for line in lines:
-            try:
-                item = json.loads(line)
-            except json.JSONDecodeError:
-                if next(lines,None) is None: return
-                raise
-            yield item
+        try:
+            for line in lines:
+                try:
+                    item = json.loads(line)
+                except json.JSONDecodeError:
+                    if next(lines,None) is None: return
+                    raise
+                yield item
+        except (EOFError, gzip.BadGzipFile):
+            pass #in a gz file the partially written last line is a gzip member without its end
 
 class TransactionEncode:
     def __init__(self,restored):
